@@ -61,7 +61,8 @@ Evaluate(k) ==
     /\ tree # "none"
     /\ nev < MaxEval
     /\ nev' = nev + 1
-    /\ seen' = seen \cup {k}
+    /\ seen' = seen \cup {<<k, dver, shape, pver, linked, vs>>}      \* with the context it was evaluated in: a cache can only be stale
+                                                                  \* if something was evaluated under an EARLIER context
     /\ act' = A("Evaluate", k, "-")
     /\ UNCHANGED <<avars, nmut>>
 
